@@ -8,6 +8,8 @@
 (*   C08:   stream.count_bits() = 8 * bytes written   (a listed property,  *)
 (*          here for streams with extra metadata blocks and user-set       *)
 (*          STREAMINFO fields)                                             *)
+(*   C02:   the last-block flags of the written metadata chain are        *)
+(*          consistent with what follows (also a listed property)          *)
 (*   MODEL: everything else - conformance of the assembly API to the       *)
 (*          model, reported as MODEL-DIVERGENCE by the check.              *)
 (***************************************************************************)
@@ -40,6 +42,11 @@ ObsProblems(o, s, what) ==
               \cup Msg(<<h.minbs, h.maxbs, h.minfs, h.maxfs, h.totHi, h.totLo>> = <<w.minbs, w.maxbs, w.minfs, w.maxfs, 0, w.total>>,
                        "MODEL: " \o what \o ": STREAMINFO on the wire " \o ToString(<<h.minbs, h.maxbs, h.minfs, h.maxfs, h.totLo>>)
                        \o ", the model expects " \o ToString(<<w.minbs, w.maxbs, w.minfs, w.maxfs, w.total>>))
+              \* C02 (a listed property, judged on the bytes alone): the chain of last-block flags ends exactly where
+              \* the frames begin - no block after a flagged one, no frame before it
+              \cup Msg(m.ok /\ m.at = Len(b), "C02: " \o what \o ": the metadata chain of the written stream ends at byte " \o ToString(m.at)
+                       \o " (block types " \o ToString(m.types) \o ") but the frames start at byte " \o ToString(Len(b))
+                       \o ": a last-block flag is inconsistent with what follows")
               \cup Msg(m.ok /\ m.at = w.firstFrameAt /\ m.types = w.types /\ Len(b) = w.firstFrameAt,
                        "MODEL: " \o what \o ": metadata chain (types " \o ToString(m.types) \o ", frames start at " \o ToString(m.at)
                        \o ") differs from the model (" \o ToString(w.types) \o ", " \o ToString(w.firstFrameAt) \o ")"))
@@ -66,7 +73,7 @@ TPanic == Ev.ev = "panic" /\ bad' = bad \cup {"MODEL: a call of the assembly API
 TEnd == /\ Ev.ev = "end" /\ UNCHANGED <<id, st, calls>> /\ bad' = {}
         /\ PrintT("VERDICT|" \o id \o
                   (IF bad = {} THEN "|pass|"
-                   ELSE (IF \E x \in bad : SubSeq(x, 1, 4) = "C08:" THEN "|FAIL|" ELSE "|DIVERGED|")
+                   ELSE (IF \E x \in bad : SubSeq(x, 1, 4) \in {"C08:", "C02:"} THEN "|FAIL|" ELSE "|DIVERGED|")
                         \o FoldSet(LAMBDA x, a : a \o x \o " ;; ", "", bad)))
 TNext == l <= Len(Rec) /\ l' = l + 1 /\ UNCHANGED setters /\ (TNew \/ TObs0 \/ TCall \/ TPanic \/ TEnd)
 TSpec == TInit /\ [][TNext]_<<l, bad, id, st, calls, setters>>
